@@ -62,7 +62,35 @@ func sigMatches(signature, path, content string) bool {
 	return false
 }
 
+var pegiAssumption = "PEGI trusts /repo/jsonpath.peg (9 KB) and README as the published grammar; it implements the PEG meta-syntax subset that file uses and is validated against all 265 syntax-error cases the suite pins"
+
 var properties = map[string]*propSpec{
+	"C02": {
+		Title: "Parse is total: any string yields a function or a documented syntax-check error",
+		Checks: []checkSpec{
+			{Test: "TestC02_Total", Quick: 60000, Thorough: 1000000, Rapid: true},
+			{Test: "TestC02_Reduced", Quick: 1, Thorough: 1},
+		},
+		Assumptions: assume("'bounded time' is decided as: no case exceeds the 20 s hang detector", "process deaths (fatal stack overflow) are attributed through a per-shard journal and confirmed by replay in a fresh process"),
+		Floors: []floor{
+			{Check: "TestC02_Total", Class: "outcome:accepted", Min: 0.01},
+			{Check: "TestC02_Total", Class: "outcome:ErrorInvalidSyntax", Min: 0.01},
+			{Check: "TestC02_Total", Class: "outcome:ErrorInvalidArgument", Min: 0.005},
+			{Check: "TestC02_Total", Class: "outcome:ErrorFunctionNotFound", Min: 0.005},
+			{Check: "TestC02_Total", Class: "outcome:ErrorNotSupported", Min: 0.0005},
+		},
+	},
+	"C17": {
+		Title: "The accepted language is the published grammar; syntax errors point at the spot",
+		Checks: []checkSpec{
+			{Test: "TestC17_Grammar", Quick: 30000, Thorough: 500000, Rapid: true},
+			{Test: "TestC17_Reduced", Quick: 1, Thorough: 1},
+		},
+		Assumptions: assume(pegiAssumption),
+		Floors: []floor{
+			{Check: "TestC17_Grammar", Class: "nontrivial:non-ascii-rejected", Min: 0.03},
+		},
+	},
 	"C01": {
 		Title: "Retrieval returns exactly the nodes the JSONPath selects, in document order",
 		Checks: []checkSpec{
@@ -70,7 +98,7 @@ var properties = map[string]*propSpec{
 		},
 		Assumptions: assume(specAssumption),
 		Floors: []floor{
-			{Check: "TestC01_Spec", Class: "nontrivial:>=2results", Min: 0.15},
+			{Check: "TestC01_Spec", Class: "nontrivial:>=2results", Min: 0.06},
 		},
 	},
 }
